@@ -14,23 +14,23 @@ import (
 func init() { props["C11"] = checkC11 }
 
 // decoder calls whose error must not be dropped in emitted decoders.
-var decodeCallees = []string{"json.Unmarshal", "hex.DecodeString", "DecodeString", "time.Parse", "strconv.Parse", "protojson.Unmarshal", "proto.Unmarshal", "io.ReadAll", "json.Marshal", "protojson.Marshal"}
+var decodeCallees = []string{"UnmarshalJSON", "json.Unmarshal", "hex.DecodeString", "DecodeString", "time.Parse", "strconv.Parse", "protojson.Unmarshal", "proto.Unmarshal", "io.ReadAll", "json.Marshal", "protojson.Marshal"}
 
 // swallowExcused: (emitter function, callee) pairs where only the success arm is
 // handled, confirmed by reading: on failure the untouched token reaches
 // protojson.Unmarshal, which either rejects it (the error resurfaces as 400) or
 // accepts a legitimate proto3 JSON alternative form of the same value.
 var swallowExcused = map[string]string{
-	"generateSingularInt64FieldUnmarshal json.Unmarshal":             "a non-number token stays as it is; protojson accepts a decimal string for int64 (proto3 JSON) and rejects anything else",
-	"generateRepeatedInt64FieldUnmarshal json.Unmarshal":             "same, element-wise",
-	"generateTimestampFieldUnmarshal json.Unmarshal":                 "a non-integer token stays; protojson accepts only an RFC 3339 string there and rejects anything else",
-	"generateTimestampFieldUnmarshal time.Parse":                     "a string that is not a date stays; protojson accepts only RFC 3339 and rejects anything else",
-	"generateBytesFieldUnmarshal json.Unmarshal":                     "a non-string token stays; protojson rejects non-string bytes values",
-	"generateBytesFieldUnmarshal base64.RawStdEncoding.DecodeString": "protojson's bytes decoder accepts standard and URL alphabets with or without padding and yields the same bytes",
-	"generateBytesFieldUnmarshal base64.URLEncoding.DecodeString":    "same",
-	"generateBytesFieldUnmarshal base64.RawURLEncoding.DecodeString": "same",
-	"generateEnumUnmarshalJSON json.Unmarshal":                       "alternative forms (name, number) are tried in turn; when none decodes the function returns an error",
-	"generateHandleErrorResponseMethod c.unmarshalResponse":          "the typed error bodies are tried in turn; the fallback returns an error carrying status and raw body",
+	// keyed by (unit, callee): the emitting function's name is not part of the identity, a clean-up may rename or split it
+	"_encoding.pb.go json.Unmarshal":                           "a non-number token stays as it is; protojson accepts a decimal string for int64 (proto3 JSON) and rejects anything else (singular and element-wise)",
+	"_timestamp_format.pb.go json.Unmarshal":                   "a non-integer token stays; protojson accepts only an RFC 3339 string there and rejects anything else",
+	"_timestamp_format.pb.go time.Parse":                       "a string that is not a date stays; protojson accepts only RFC 3339 and rejects anything else",
+	"_bytes_encoding.pb.go json.Unmarshal":                     "a non-string token stays; protojson rejects non-string bytes values",
+	"_bytes_encoding.pb.go base64.RawStdEncoding.DecodeString": "protojson's bytes decoder accepts standard and URL alphabets with or without padding and yields the same bytes",
+	"_bytes_encoding.pb.go base64.URLEncoding.DecodeString":    "same",
+	"_bytes_encoding.pb.go base64.RawURLEncoding.DecodeString": "same",
+	"_enum_encoding.pb.go json.Unmarshal":                      "alternative forms (name, number) are tried in turn; when none decodes the function returns an error",
+	"_client.pb.go c.unmarshalResponse":                        "the typed error bodies are tried in turn; the fallback returns an error carrying status and raw body",
 }
 
 // discardExcused: `x, _ = f(...)` sites that cannot fail.
@@ -423,7 +423,8 @@ func checkC11(c *Ctx) {
 							}
 							kind := classifyByName(x, parents)
 							em, p := genFn(x.Pos())
-							key := pkgShort(ri.Pkg) + " " + em + " " + match
+							key := pkgShort(ri.Pkg) + " " + ri.Suffix + " " + match
+							_ = em
 							if sites[key] == nil {
 								sites[key] = &agg{kinds: map[string]int{}, pos: p}
 							}
